@@ -553,18 +553,13 @@ fn health(env: &Env) -> Result<(), (bool, String)> {
     }
 }
 
-fn close_with_watchdog(r: &mut Running, secs: u64) -> Option<Result<(), String>> {
-    let server = r.server.take()?;
-    let rt = r.rt.as_ref()?;
+fn close_with_watchdog(r: &mut Running, _secs: u64) -> Option<Result<(), String>> {
     // close() itself may panic (e.g. when the server task has died): that is an
-    // outcome to report, not a reason for the engine to die
-    match vmon::panics::catch_quiet(std::panic::AssertUnwindSafe(|| {
-        rt.block_on(async {
-            tokio::time::timeout(Duration::from_secs(secs), server.close()).await.ok()
-        })
-    })) {
-        Ok(r) => r,
-        Err(p) => Some(Err(format!("close() panicked: {}", p.message))),
+    // outcome to report, not a reason for the engine to die.  Bounded from outside the
+    // server's runtime (vmon::srv::CLOSE_WATCHDOG_S); no return is no verdict here.
+    match r.close() {
+        Some(Err(e)) if e.contains(vmon::srv::CLOSE_HUNG) => None,
+        other => other,
     }
 }
 
